@@ -359,6 +359,11 @@ def explore(rng, transport, profile, flavor, runner_cls, max_cmds=70):
                 term = bytes(srv.out).find(b'\n##\n' if srv.base11 else DELIM10)
                 hi = (term if term > 0 else n) - 1
                 k = rng.randint(max(1, min(hi, int(hi * 0.5))), max(1, hi))
+                if srv.base11 and rng.random() < 0.4:
+                    # ... exactly behind the last octet of a complete chunk, before the next chunk header / the end-of-chunks marker
+                    j = bytes(srv.out).find(b'\n#', 2)
+                    if 0 < j <= hi + 1:
+                        k = j
                 k = min(k, 20000 if transport == 'tls' else 4096)          # one transport read
                 d = bytes(srv.out[:k])
                 del srv.out[:k]
